@@ -77,8 +77,27 @@ def _replay(model, contract):
 
     Y, v, d0, d1 = val(z3.Real("Y")), val(z3.Real("v")), val(z3.Real("d0")), val(z3.Real("d1"))
     has_function = bool(z3.is_true(model.eval(z3.Bool("has_function"), model_completion=True)))
-    ts = au.TimeSeries(t=[1990.0, 2010.0], vals=[d0, d1])
+    variants = [("two data points, default interpolation", [1990.0, 2010.0], [d0, d1], None),
+                ("three data points, the parameter's own interpolation method is pchip", [1990.0, 2001.5, 2010.0], [d0, d1 if d1 != d0 else d0 + 4.0, d0 + 1.0], "pchip")]
+    results = [_replay_variant(Y, v, has_function, *var) for var in variants]
+    worst = [r for r in results if r["verdict"] == "violates"] or results
+    return worst[0]
+
+
+def _replay_variant(Y, v, has_function, what, data_t, data_v, method):
+    import ast
+    import inspect
+    import textwrap
+
+    import numpy as np
+    import atomica.parameters as apar
+    import atomica.scenarios as asc
+    import atomica.utils as au
+
+    ts = au.TimeSeries(t=list(data_t), vals=list(data_v))
     par = apar.Parameter("par", {"pop": ts})
+    if method is not None:
+        par._interpolation_method = method
     tvec = np.array(GRID)
     baseline = {g: float(par.interpolate(np.array([g]), "pop")[0]) for g in GRID}
     scen = object.__new__(asc.ParameterScenario)
@@ -93,7 +112,7 @@ def _replay(model, contract):
     once = ast.For(target=ast.Name(id="_once", ctx=ast.Store()), iter=ast.List(elts=[ast.Constant(0)], ctx=ast.Load()), body=loops[0].body, orelse=[])
     env = dict(vars(asc))
     env.update(self=scen, new_parset=_PS(), par_label="par", pop_specifier="pop", overwrite={"t": [Y], "y": [v]}, tvec=tvec, has_function=has_function)
-    pre = dict(grid=GRID, data={"1990": d0, "2010": d1}, overwrite=[Y, v], has_function=has_function)
+    pre = dict(variant=what, grid=GRID, data=dict(zip(map(str, data_t), data_v)), interpolation_method=method or "default", overwrite=[Y, v], has_function=has_function)
     try:
         exec(compile(ast.fix_missing_locations(ast.Module(body=[once], type_ignores=[])), "<overwrite loop of ParameterScenario.get_parset>", "exec"), env)
     except Exception as e:
